@@ -1,6 +1,6 @@
 CONSTANTS
   LoopBound = 3
-  StepFuel = 2000
+  StepFuel = 800
 INIT Init
 NEXT Next
 CONSTRAINT HW
